@@ -106,7 +106,12 @@ func observeC02(c *Case, buf []byte, prev []byte, hasPrev bool) {
 func tagC02(c *Case, buf []byte, src string) {
 	c.Tag("src=" + src)
 	var p rtp.Packet
-	if err := p.Unmarshal(cloneBytes(buf)); err != nil {
+	var err error
+	if try(func() { err = p.Unmarshal(cloneBytes(buf)) }) {
+		c.Tag("res=panic")
+		return
+	}
+	if err != nil {
 		c.Tag("res=err-" + errKind(err))
 		return
 	}
@@ -228,6 +233,9 @@ func c02Families() []c02Family {
 		{"x-one-2", cat(fixed(0x90), []byte{0xBE, 0xDE, 0x00, 0x02, 0x10, 0xAA}), []byte{0x01, 0x02, 0x03, 0x04}},
 		{"x-two", cat(fixed(0x90), []byte{0x10, 0x00, 0x00, 0x01}), []byte{0xAA, 0xBB, 0xCC}},
 		{"x-two-2", cat(fixed(0x90), []byte{0x10, 0x00, 0x00, 0x02, 0x07, 0x00}), []byte{0x01, 0x02, 0x03, 0x04}},
+		{"x-one-end", cat(fixed(0x90), []byte{0xBE, 0xDE, 0x00, 0x01, 0x00, 0x00}), nil},
+		{"x-two-end", cat(fixed(0x90), []byte{0x10, 0x00, 0x00, 0x01, 0x00, 0x00}), nil},
+		{"xp-two-end", cat(fixed(0xB0), []byte{0x10, 0x00, 0x00, 0x01, 0x00, 0x00}), nil},
 		{"xp-tail", cat(fixed(0xB0), []byte{0xBE, 0xDE, 0x00, 0x01, 0x10, 0xAA, 0x00, 0x00}), nil},
 		{"xp-legacy", cat(fixed(0xB1), []byte{9, 9, 9, 9, 0x12, 0x34, 0x00}), []byte{0xAA, 0xBB, 0xCC, 0xDD, 0x02}},
 	}
